@@ -209,6 +209,13 @@ Theorem C11_comment_after_semi_refuted :
 Proof. exact C11Wit.C11_comment_after_semi_refuted. Qed.
 Print Assumptions C11_comment_after_semi_refuted.
 
+(* a white-space run of a different LENGTH changes the tree when the statement has two `:=` (stale indices of the generic
+   _group driver after group_assignment grouped up to the far `;`): finding C11-assignment-stale-index *)
+Theorem C11_assignment_run_refuted :
+  respelling w_assign2_a w_assign2_b /\ parse_shapes w_assign2_a <> parse_shapes w_assign2_b.
+Proof. exact C11Wit.C11_assignment_run_refuted. Qed.
+Print Assumptions C11_assignment_run_refuted.
+
 (* ---- the witnesses of the repaired defects: now the same shapes / the same statements ---------------- *)
 Theorem C11_order_by_ws_same :
   respelling w_order_by_a w_order_by_b /\ parse_shapes w_order_by_a = parse_shapes w_order_by_b.
